@@ -675,4 +675,15 @@ void run_C16(void) {
   // modules / tables created, used and destroyed in random order, several alive at once
   for (unsigned rep = 0; rep < (G.thorough ? 240u : 24u); rep++)
     ops_lifecycle_case("C16 objects", LKM_MOD_NTT120 | LKM_MOD_FFT64, (rep % 4) == 3 ? DISP_GENERIC : DISP_NATIVE, 160, 0, rep, "lifecycle_uses");
+  // the entry points of this property called a second time on the SAME buffers holding other data (new values, two limbs exchanged,
+  // one word moved between limbs): must equal a fresh call on that data (results or operands remembered by address)
+  {
+    static const char* const RNAMES[] = {"vec_znx_add", "vec_znx_sub", "vec_znx_rotate", "vec_znx_automorphism", "vec_znx_normalize_base2k", "vec_znx_dft", "svp_apply_dft", "vmp_prepare_contiguous", "vmp_apply_dft", "vmp_apply_dft_to_dft", "vec_znx_idft", "vec_znx_big_normalize_base2k", "vec_znx_dft@ntt120", "vec_znx_idft@ntt120"};
+    static const uint64_t RN[] = {2, 16, 64, 1024};
+    for (size_t i = 0; i < ARRAY_LEN(RN); i++)
+      for (int cfg = DISP_NATIVE; cfg >= DISP_GENERIC; cfg--) {
+        if (cfg == DISP_GENERIC && (i & 1)) continue;
+        ops_recontent_case("C16 entry points", RNAMES, (int)ARRAY_LEN(RNAMES), RN[i], cfg, G.thorough ? 40 : 6, (unsigned)i, "same_buffers_other_data_calls");
+      }
+  }
 }
